@@ -5,9 +5,10 @@ From PDV Require Import lib.Skel gen.Gen_C05.
    write-back must not swallow) are pinned by the C01 skeleton obligations *)
 From PDV Require proof.C01_Skel.
 
-(* Global GenerateTSO: Check; without dc-locations plain getTS; otherwise under syncMu, every attempt with a fresh skipCheck = false: estimate, SyncMaxTS(check), fall back to a larger collected maximum (+count, overflow bump) and SyncMaxTS(skipCheck), persist when memory is behind, Check, differentiate *)
+(* Global GenerateTSO: Check; without dc-locations plain getTS WITH the manager's suffix bits (they never shrink: the width the
+   allocator's earlier answers were differentiated with is kept when the last dc-location disappears); otherwise under syncMu, every attempt with a fresh skipCheck = false: estimate, SyncMaxTS(check), fall back to a larger collected maximum (+count, overflow bump) and SyncMaxTS(skipCheck), persist when memory is behind, Check, differentiate *)
 Lemma skel_gta_GenerateTSO_ok : skel_gta_GenerateTSO =
-  [Call "Check"; IfE "!gta.leadership.Check()" [Ret] []; Call "GetClusterDCLocations"; Assign "dcLocationMap" ":= gta.allocatorManager.GetClusterDCLocations()"; IfE "len(dcLocationMap) == 0" [Call "getTS"; Ret] []; Lock "gta.syncMu"; DeferUnlock "gta.syncMu"; Call "GetClusterDCLocations"; Assign "dcLocationMap" "= gta.allocatorManager.GetClusterDCLocations()"; ForE [Assign "skipCheck" "var zero"; Assign "estimatedMaxTSO" "var zero"; Call "estimateMaxTS"; Assign "estimatedMaxTSO" "= gta.estimateMaxTS(count, suffixBits)"; IfE "err != nil" [Cont] []; IfE "shouldRetry" [Cont] []; Call "SyncMaxTS"; IfE "err != nil" [Cont] []; Call "CompareTimestamp"; IfE "!skipCheck && tsoutil.CompareTimestamp(&globalTSOResp, estimatedMaxTSO) > 0" [Assign "estimatedMaxTSO.Logical" "+= int64(count)"; Call "precheckLogical"; IfE "!gta.precheckLogical(estimatedMaxTSO, suffixBits)" [Assign "estimatedMaxTSO.Physical" "+= UpdateTimestampGuard.Milliseconds()"; Assign "estimatedMaxTSO.Logical" "= int64(count)"] []; Assign "skipCheck" "= true"] []; Call "CompareTimestamp"; Call "getCurrentTSO"; IfE "err != nil" [Cont] []; Call "CompareTimestamp"; IfE "tsoutil.CompareTimestamp(currentGlobalTSO, &globalTSOResp) < 0" [Call "resetUserTimestamp"; IfE "err != nil" [Cont] []] []; Call "Check"; IfE "!gta.leadership.Check()" [Ret] []; Call "differentiateLogical"; Assign "globalTSOResp.Logical" "= gta.timestampOracle.differentiateLogical(globalTSOResp.GetLogical(), suffixBits)"; Ret]; Ret].
+  [Call "Check"; IfE "!gta.leadership.Check()" [Ret] []; Call "GetClusterDCLocations"; Assign "dcLocationMap" ":= gta.allocatorManager.GetClusterDCLocations()"; IfE "len(dcLocationMap) == 0" [Call "getTS(gta.leadership, count, gta.allocatorManager.GetSuffixBits())"; Ret] []; Lock "gta.syncMu"; DeferUnlock "gta.syncMu"; Call "GetClusterDCLocations"; Assign "dcLocationMap" "= gta.allocatorManager.GetClusterDCLocations()"; ForE [Assign "skipCheck" "var zero"; Assign "estimatedMaxTSO" "var zero"; Call "estimateMaxTS"; Assign "estimatedMaxTSO" "= gta.estimateMaxTS(count, suffixBits)"; IfE "err != nil" [Cont] []; IfE "shouldRetry" [Cont] []; Call "SyncMaxTS"; IfE "err != nil" [Cont] []; Call "CompareTimestamp"; IfE "!skipCheck && tsoutil.CompareTimestamp(&globalTSOResp, estimatedMaxTSO) > 0" [Assign "estimatedMaxTSO.Logical" "+= int64(count)"; Call "precheckLogical"; IfE "!gta.precheckLogical(estimatedMaxTSO, suffixBits)" [Assign "estimatedMaxTSO.Physical" "+= UpdateTimestampGuard.Milliseconds()"; Assign "estimatedMaxTSO.Logical" "= int64(count)"] []; Assign "skipCheck" "= true"] []; Call "CompareTimestamp"; Call "getCurrentTSO"; IfE "err != nil" [Cont] []; Call "CompareTimestamp"; IfE "tsoutil.CompareTimestamp(currentGlobalTSO, &globalTSOResp) < 0" [Call "resetUserTimestamp"; IfE "err != nil" [Cont] []] []; Call "Check"; IfE "!gta.leadership.Check()" [Ret] []; Call "differentiateLogical"; Assign "globalTSOResp.Logical" "= gta.timestampOracle.differentiateLogical(globalTSOResp.GetLogical(), suffixBits)"; Ret]; Ret].
 Proof. reflexivity. Qed.
 
 Lemma skel_gta_estimateMaxTS_ok : skel_gta_estimateMaxTS =
